@@ -43,7 +43,14 @@ func (d *dest) outcome(p []byte) (int, error) {
 	case 1:
 		return 0, d.errs[k%len(d.errs)]
 	case 2:
-		return len(p) - 1, nil
+		// a short write without an error: one byte short, nothing at all, or half - by destination and call
+		switch (d.id + k) % 3 {
+		case 0:
+			return len(p) - 1, nil
+		case 1:
+			return 0, nil
+		}
+		return len(p) / 2, nil
 	}
 	return len(p), nil
 }
@@ -104,7 +111,7 @@ func main() {
 	defer r.CrashGuard()
 	defer r.Watch()()
 	r.Rule = "one evaluation = one history: a destination shape (1-3 destinations of kinds plain/LevelWriter/FilteredLevelWriter, or a single direct writer), a vector of event levels, and one complete assignment of {ok,error,short write} to every (destination,event); all assignments are enumerated; distinct = distinct (shape, levels, per-destination call log, ErrorHandler log); non-trivial = at least one injected fault"
-	r.Assumptions = []string{"destinations are synchronous fakes; an error outcome returns (0, err), a short write returns (len-1, nil)", "events: 4 levels {debug, info, error, nolevel}, up to 3 (quick) / 4 (thorough) events per history"}
+	r.Assumptions = []string{"destinations are synchronous fakes; an error outcome returns (0, err), a short write returns (len-1, nil), (0, nil) or (len/2, nil) in rotation", "events: 4 levels {debug, info, error, nolevel}, up to 3 (quick) / 4 (thorough) events per history"}
 
 	type shape []string
 	shapes2 := []shape{}
